@@ -58,6 +58,7 @@ Failures(T) ==
   \cup UNION {RepClauses(T, j) : j \in 1..Len(T.reps)}
   \cup Fail("RepetitionsUseIndependentlyDrawnGames",
             T.continuous = 1 => \A i, j \in 1..Len(T.reps) : i # j => T.reps[i].hid_tok # T.reps[j].hid_tok)
+  \cup Fail("SameHiddenGamesForEveryNumberOfProcesses", T.games_same_p1 # 0)
   \cup Fail("SameResultForEveryNumberOfProcesses", T.same_p1 # 0))
 
 TraceInit == tid \in 1..Len(Traces) /\ l = 0
